@@ -342,7 +342,10 @@ class SwitchRouter(BaseRouter):
                 # Find the case matching the category.
                 if case.category_uuid == category.uuid:
                     covered_category_uuids.add(category.uuid)
-                    arg_idx = 1 if self.operand == "@contact.groups" else 0
+                    # has_group cases carry [group uuid, group name]: sheets refer to
+                    # groups by name, whatever the operand of the router is
+                    by_name = self.operand == "@contact.groups" or case.type == "has_group"
+                    arg_idx = 1 if by_name else 0
                     if self.operand in ["@contact.groups", "@child.run.status"]:
                         # For groups and expired/complete, var/type/name are implicit
                         condition = Condition(value=case.arguments[arg_idx])
